@@ -5,7 +5,7 @@ CONSTANTS Procs = {"p1","p2"}
           N = 2
           NL = 4
           MaxCrashes = 0
-          Inits = {"none","o1"}
+          Inits = {"none","o1","trunc"}
           Sequential = FALSE
           AtomicWrite = TRUE
           CatchUnpickle = TRUE
